@@ -1,10 +1,46 @@
 import Driver.Util
-open Lean Replicat
+import ReplicatModel.Access
+open Lean Replicat Replicat.Access
 namespace Driver
 
-/-- requests `access.*` -/
+def parseKind (s : String) : Except String Kind :=
+  match s with
+  | "independent" => pure .independent
+  | "shared" => pure .shared
+  | "clone" => pure .clone
+  | _ => throw s!"bad kind {s}"
+
+def parseAddKey (j : Json) : Except String AddKey := do
+  pure ⟨← getNat j "base", ← parseKind (← getStr j "kind"), ← getNat j "password", ← getNat j "cfg"⟩
+
+def userJson (u : Option Repo.User) : Json :=
+  match u with
+  | some u => Json.arr #[jnat u.key, jnat u.fam]
+  | none => Json.null
+
+/-- requests `access.*`:
+`access.graph` — build the key graph of `init(password, cfg)` followed by `steps` (add-key independent / shared / clone issued
+by the holder of entry `base`); reply: per entry `[keyId, fam]` as unlocked with its own password, whether the private section
+is sealed, and for every `attempts` pair `[entry index, password]` the user the unlock yields or null (DecryptionError). -/
 def handleAccess (op : String) (j : Json) : Except String Json := do
   match op with
+  | "access.graph" =>
+    let pw ← getNat j "password"
+    let cfg ← getNat j "cfg"
+    let steps ← (← getArr j "steps").toList.mapM parseAddKey
+    let g := build symKdf pw cfg steps
+    let attempts ← (← getArr j "attempts").toList.mapM fun a => do
+      match (← a.getArr?).toList with
+      | [i, p] => pure ((← i.getNat?), (← p.getNat?))
+      | _ => throw "bad attempt"
+    let own := g.entries.map fun e => userJson (userOf symKdf e e.password)
+    let sealed := g.entries.map fun e => match e.file.priv with | .enc .. => Json.bool true | .plain _ => Json.bool false
+    let res := attempts.map fun (i, p) =>
+      match g.entries[i]? with
+      | some e => userJson (userOf symKdf e p)
+      | none => Json.str "no such entry"
+    pure (Json.mkObj [("entries", Json.arr own.toArray), ("sealed", Json.arr sealed.toArray), ("unlock", Json.arr res.toArray),
+                      ("salts", natArr (g.entries.map (·.file.salt))), ("cfgs", natArr (g.entries.map (·.file.cfg)))])
   | _ => throw s!"unknown op {op}"
 
 end Driver
